@@ -204,6 +204,8 @@ func runOne(sp solverSpec, file string, timeoutS int, ctx context.Context) Solve
 // solveRace runs the solvers on the script. Order: primary first alone for
 // `grace` seconds (most goals take < 0.1 s); if undecided the others are tried.
 // An obligation is discharged when some solver says unsat and none says sat.
+var shortPortfolio = map[string]bool{} // obligation base names expected to fail (known findings): do not burn the whole portfolio
+
 func solveRace(script string, name string, timeoutS int, all bool, seed int) (verdict string, results []SolverResult, file string) {
 	dir := filepath.Join(workDir, "smt")
 	os.MkdirAll(dir, 0o755)
@@ -214,8 +216,20 @@ func solveRace(script string, name string, timeoutS int, all bool, seed int) (ve
 		order = []int{0, 1, 2, 3, 5, 4}
 	}
 	hasQuant := strings.Contains(script, "(forall ") || strings.Contains(script, "(exists ")
+	order = []int{0, 1, 4, 2, 3, 5}
+	if os.Getenv("GOVC_FAST") != "" {
+		order = []int{0, 1, 2} // development aid: give up sooner
+	}
 	if !hasQuant {
 		order = []int{2, 4, 5} // quantifier-free: complete configurations answer sat/unsat directly
+	}
+	bn := name
+	if i := strings.Index(bn, ".site"); i >= 0 {
+		bn = bn[:i]
+	}
+	if shortPortfolio[bn] && !all {
+		order = []int{0, 2}
+		timeoutS = min(timeoutS, 5)
 	}
 	ctx := context.Background()
 	verdict = "unknown"
